@@ -132,10 +132,10 @@ def eval_entity_after_partial(q, world, inst, share_terms=False, take=2, share_c
         return [exc_obs(e), None]
 
 
-def eval_rows(q, world, inst, share_conds=False):
+def eval_rows(q, world, inst, share_conds=False, predeclare=()):
     """build and fully evaluate a set_of query; returns list of tuples (one value per selected term) or ('EXC', ...)"""
     try:
-        obj, b = Q.build(q, world, inst, share_conds=share_conds)
+        obj, b = Q.build(q, world, inst, share_conds=share_conds, predeclare=predeclare)
         sel = b.sel[q]
         return [tuple(r[s] for s in sel) for r in obj.evaluate()]
     except Exception as e:
